@@ -90,6 +90,7 @@ type Scenario struct {
 	Castor    string   `json:"castor,omitempty"`
 	Txs       []TxS    `json:"txs"`
 	Situation string   `json:"situation,omitempty"`
+	CastCut   int      `json:"castCut,omitempty"` // casting-mode scenario: the deadline strikes when the loop reaches its CastCut-th executed transaction
 	Config    string   `json:"config,omitempty"` // "" = dev table with the flag vector; "mainnet" / "robin" = the real schedule at this height
 	// searcher only: run the N executions under these chain heights (common.GetBlockHeight)
 	// with the dev fork table instead of the flag string
@@ -321,6 +322,28 @@ func situationOf(sc *Scenario) string {
 	return sc.Situation
 }
 
+// execVariant: how the i-th plain repetition of an N-fold run executes the block.  The hooked
+// build (tag c01hooks) replaces it by an execution whose EVM sees an injected local chain index
+// that alternates between replicas (same below the executing height, different at and above it).
+var execVariant = func(sc *Scenario, root common.Hash, t account.AccountDatabase, i int) outcome {
+	return execOnce(sc, root, t)
+}
+
+// coreExecute: every execution of the harness goes through here; the hooked build injects the
+// canonical local chain index (so BLOCKHASH has something to read instead of the nil chain)
+var coreExecute = func(st *account.AccountDB, blk *types.Block, situation string) (common.Hash, []common.Hash, []*types.Transaction, []*types.Receipt) {
+	return core.VerifC01Execute(st, blk, situation)
+}
+
+// extraFamilies: searcher families only the hooked build has (casting mode with a forced deadline)
+var extraFamilies []func(r *hx.Rng, report func(sc *Scenario, res map[string]int)) int
+
+// haveChainStub: BLOCKHASH can be executed (context["chain"] is an injected index, not the nil chain)
+var haveChainStub bool
+
+// replayHooked: replay of a scenario that needs the hooked build (casting cut)
+var replayHooked func(sc *Scenario) map[string]int
+
 // execOnce = what checkStates does: fresh AccountDB at the parent root, fresh executor.
 func execOnce(sc *Scenario, root common.Hash, t account.AccountDatabase) outcome {
 	st, err := account.NewAccountDB(root, t)
@@ -328,7 +351,7 @@ func execOnce(sc *Scenario, root common.Hash, t account.AccountDatabase) outcome
 		panic(err)
 	}
 	blk := mkBlock(sc)
-	r, ev, txs, rc := core.VerifC01Execute(st, blk, situationOf(sc))
+	r, ev, txs, rc := coreExecute(st, blk, situationOf(sc))
 	return outcome{r, ev, rc, st, txs}
 }
 
@@ -1306,8 +1329,20 @@ func payTo(addr string, value byte) string {
 }
 
 // runtimeLib: small runtimes a contract can have. beneficiary/addresses are drawn from the pool.
+// blockhashProbe: slots 0x10.. = BLOCKHASH(NUMBER - d) for d = 0, 1, 256, 257, 2
+func blockhashProbe() string {
+	code := ""
+	for i, d := range []int{0, 1, 256, 257, 2} {
+		code += fmt.Sprintf("61%04x430340", d) + fmt.Sprintf("60%02x55", 0x10+i) // PUSH2 d NUMBER SUB BLOCKHASH PUSH1 slot SSTORE
+	}
+	return code + "00"
+}
+
 func runtimeLib(r *hx.Rng) string {
 	other := evmPool[r.Intn(len(evmPool))]
+	if haveChainStub && r.Chance(1, 4) {
+		return blockhashProbe()
+	}
 	switch r.Intn(9) {
 	case 0:
 		return "33ff" // SELFDESTRUCT(CALLER)
@@ -1332,6 +1367,9 @@ func runtimeLib(r *hx.Rng) string {
 
 func initLib(r *hx.Rng) string {
 	other := evmPool[r.Intn(len(evmPool))]
+	if haveChainStub && r.Chance(1, 6) {
+		return strings.TrimSuffix(blockhashProbe(), "00") + wrapRuntime("", blockhashProbe()) // constructor and runtime both probe
+	}
 	switch r.Intn(10) {
 	case 0:
 		return "33ff" // self-destructs while being created, to the creator
@@ -1771,6 +1809,7 @@ func hasSelfTarget(sc *Scenario) bool {
 var lastBefore, lastAfter map[string]bool
 var perHeight map[uint64]map[string]bool // GlobalHeights scenarios: outcomes per process height
 var poisonRng *hx.Rng
+var variantOut [2]map[string]bool // hooked build: outcomes of the runs on the canonical (0) / longer (1) local chain index
 
 func markHeight(sc *Scenario, i int, fp string) {
 	if len(sc.GlobalHeights) == 0 {
@@ -1823,6 +1862,7 @@ func nfold(sc *Scenario, n int) map[string]int {
 	res := map[string]int{}
 	lastBefore, lastAfter = map[string]bool{}, map[string]bool{}
 	perHeight = map[uint64]map[string]bool{}
+	variantOut = [2]map[string]bool{{}, {}}
 	// retention: the block object and the outcome of one early run are kept; the same block object
 	// (already sorted in place, same transaction objects) is executed again later, and the kept
 	// receipts / evicted list are re-read after all later executions — they must not have changed
@@ -1866,7 +1906,7 @@ func nfold(sc *Scenario, n int) map[string]int {
 			fp := hx.Guard(func() string {
 				st, _ := account.NewAccountDB(root, t)
 				keptBlock = mkBlock(sc)
-				r0, ev, txs, rc := core.VerifC01Execute(st, keptBlock, situationOf(sc))
+				r0, ev, txs, rc := coreExecute(st, keptBlock, situationOf(sc))
 				keptOut = &outcome{r0, ev, rc, st, txs}
 				return keptOut.fingerprint()
 			})
@@ -1891,7 +1931,7 @@ func nfold(sc *Scenario, n int) map[string]int {
 			want := hx.Guard(func() string { return execOnce(&ordered, root, t).fingerprint() })
 			fp := hx.Guard(func() string {
 				st, _ := account.NewAccountDB(root, t)
-				r0, ev, txs, rc := core.VerifC01Execute(st, keptBlock, situationOf(sc))
+				r0, ev, txs, rc := coreExecute(st, keptBlock, situationOf(sc))
 				return outcome{r0, ev, rc, st, txs}.fingerprint()
 			})
 			if fp != want && !strings.HasPrefix(want, "PANIC") {
@@ -1899,10 +1939,13 @@ func nfold(sc *Scenario, n int) map[string]int {
 			}
 			continue
 		}
-		fp := hx.Guard(func() string { return execOnce(sc, root, t).fingerprint() })
+		fp := hx.Guard(func() string { return execVariant(sc, root, t, i).fingerprint() })
 		res[fp]++
 		mark(i, n, fp)
 		markHeight(sc, i, fp)
+		if haveChainStub {
+			variantOut[i%2][fp] = true
+		}
 	}
 	if keptOut != nil && !strings.HasPrefix(keptFp, "PANIC") {
 		// inputs mutated after the fact must not reach results handed out earlier
@@ -1930,6 +1973,11 @@ func nfold(sc *Scenario, n int) map[string]int {
 // classify names the *class* of a violation from the scenario and from what differs between the
 // outcomes (fingerprint = "root=… ev=… rc=…").
 func classify(sc *Scenario, res map[string]int) (string, string) {
+	for k := range res {
+		if strings.HasPrefix(k, "PROPOSER ") {
+			return "cast-deadline-inconsistent", "casting mode with the deadline striking inside the block: what the proposer computed for the list it packed differs from what a verifier computes for that list"
+		}
+	}
 	plain := 0
 	for k := range res {
 		if !strings.HasPrefix(k, "CONCURRENT ") && !strings.HasPrefix(k, "SEQUENTIAL ") && !strings.HasPrefix(k, "REUSED-BLOCK-OBJECT") &&
@@ -1963,6 +2011,17 @@ func classify(sc *Scenario, res map[string]int) (string, string) {
 			return "flags-from-process-chain-height", "proposal flags are read from common.GetBlockHeight() (the node's own chain top), not from the header being executed"
 		}
 		return "nondeterministic-execution", "runs at the same process height gave different results"
+	}
+	if haveChainStub && len(variantOut[0]) == 1 && len(variantOut[1]) == 1 {
+		differ := false
+		for k := range variantOut[0] {
+			if !variantOut[1][k] {
+				differ = true
+			}
+		}
+		if differ {
+			return "local-chain-index-dependence", "replicas that know the same blocks below the executing height but differ in what they store at and above it (a local / competing block) compute different results: the EVM read the node's own chain index outside the ancestors"
+		}
 	}
 	if len(lastBefore) == 1 && len(lastAfter) == 1 {
 		same := true
@@ -2257,6 +2316,9 @@ func search(a map[string]string, r *hx.Rng) {
 		distinct[sc.Name] = true
 		report(sc, res)
 	}
+	for _, fam := range extraFamilies {
+		evals += fam(r.Fork(), report)
+	}
 	// 1b. the deterministic small-scope family (fewer repetitions each: 150 scenarios)
 	nSmall := n
 	if nSmall > 16 {
@@ -2388,7 +2450,12 @@ func main() {
 			panic(err)
 		}
 		poisonRng = r.Fork() // the replay, too, poisons the process half-way through
-		res := nfold(&sc, hx.ArgInt(a, "n", 64))
+		var res map[string]int
+		if sc.CastCut > 0 && replayHooked != nil {
+			res = replayHooked(&sc)
+		} else {
+			res = nfold(&sc, hx.ArgInt(a, "n", 64))
+		}
 		for k, v := range res {
 			fmt.Printf("%dx %s\n", v, k)
 		}
